@@ -110,8 +110,10 @@ def main():
     sh("git checkout -q -- . && rm -rf demo", cwd=WT)
     # replays written while testing a seeded change are not findings on the real tree
     os.makedirs(dst, exist_ok=True)
-    shutil.copy(patch, os.path.join(dst, "patch.diff"))
-    if os.path.isdir(os.path.join(src, "demo")):
+    same = os.path.abspath(src) == os.path.abspath(dst)          # re-evaluation of a stored change
+    if not same:
+        shutil.copy(patch, os.path.join(dst, "patch.diff"))
+    if os.path.isdir(os.path.join(src, "demo")) and not same:
         shutil.rmtree(os.path.join(dst, "demo"), ignore_errors=True)
         shutil.copytree(os.path.join(src, "demo"), os.path.join(dst, "demo"))
         if demo_clean is not None:
